@@ -65,6 +65,7 @@ class Raised(Exception):
         super().__init__(f"{kind}: {detail}")
         self.kind = kind
         self.detail = detail
+        self.obj = None
 
 
 def _join(*parts):
@@ -105,6 +106,7 @@ from collections.abc import Mapping as _abc_Mapping  # noqa: E402
 import types as _types  # noqa: E402
 
 PURE_BUILTINS = {
+    "object": lambda: Obj("sentinel"), "id": id, "iter": iter, "bytes": bytes, "divmod": divmod, "round": round, "ord": ord, "chr": chr, "format": format,
     "int": int, "str": str, "len": len, "set": set, "list": list, "dict": dict, "sorted": sorted, "enumerate": enumerate, "zip": zip,
     "range": range, "min": min, "max": max, "any": any, "all": all, "tuple": tuple, "frozenset": frozenset, "bool": bool, "float": float,
     "isinstance": None, "hasattr": None, "repr": repr, "abs": abs, "sum": sum, "reversed": reversed, "dict.fromkeys": dict.fromkeys,
@@ -413,8 +415,30 @@ class PureInterp:
                 if pending is not None:
                     raise pending
         elif isinstance(st, ast.Raise):
+            if st.exc is None:
+                cur = env.get("__current_exception__")
+                if cur is not None:
+                    raise cur
+                raise Raised("RuntimeError", "bare raise outside a handler")
             e = st.exc.func if isinstance(st.exc, ast.Call) else st.exc
-            raise Raised((dotted(e) or "Exception").rsplit(".", 1)[-1], ast.unparse(st)[:80])
+            if isinstance(e, ast.Name) and isinstance(env.get(e.id), Obj) and env[e.id]._name.startswith("exc:") and not isinstance(st.exc, ast.Call):
+                o = env[e.id]
+                exc = Raised(o._name[4:], getattr(o, "detail", ""))
+                exc.obj = o
+                raise exc
+            exc = Raised((dotted(e) or "Exception").rsplit(".", 1)[-1], ast.unparse(st)[:80])
+            if isinstance(st.exc, ast.Call):
+                try:
+                    callee = self.eval(st.exc.func, env, module, depth)
+                    if isinstance(callee, ClassInfo):
+                        exc.obj = self.eval(st.exc, env, module, depth)
+                    else:
+                        args = [self.eval(a, env, module, depth) for a in st.exc.args if not isinstance(a, ast.Starred)]
+                        exc.obj = Obj("exc:" + exc.kind, args=tuple(args))
+                        exc.detail = str(args[0]) if args else exc.detail
+                except (Unsupported, Raised):
+                    pass
+            raise exc
         elif isinstance(st, ast.Try):
             try:
                 self.block(st.body, env, module, depth)
@@ -425,8 +449,13 @@ class PureInterp:
                     if None in names or "BaseException" in names or r.kind in [n.rsplit(".", 1)[-1] for n in names if n] or (
                             "Exception" in names and not base_only) or self._handler_matches(r, h, module):
                         if h.name:
-                            env[h.name] = Obj("exc:" + r.kind, args=(r.detail,))
-                        self.block(h.body, env, module, depth)
+                            env[h.name] = getattr(r, "obj", None) or Obj("exc:" + r.kind, args=(r.detail,), detail=r.detail)
+                        prev = env.get("__current_exception__")
+                        env["__current_exception__"] = r
+                        try:
+                            self.block(h.body, env, module, depth)
+                        finally:
+                            env["__current_exception__"] = prev
                         break
                 else:
                     raise
@@ -666,10 +695,13 @@ class PureInterp:
             try:
                 return self.ev.eval(obj[2], obj[1])
             except CantEval:
-                try:
-                    return self.eval(obj[2], {}, obj[1], depth + 1)  # e.g. _PATTERN = re.compile(...)
-                except (Unsupported, Raised):
-                    return Obj("opaque:" + n.id)  # e.g. logger = logging.getLogger(__name__)
+                cache = self.__dict__.setdefault("_const_cache", {})
+                if canon not in cache:  # one object per module constant (sentinels are compared by identity)
+                    try:
+                        cache[canon] = self.eval(obj[2], {}, obj[1], depth + 1)  # e.g. _PATTERN = re.compile(...)
+                    except (Unsupported, Raised):
+                        cache[canon] = Obj("opaque:" + n.id)  # e.g. logger = logging.getLogger(__name__)
+                return cache[canon]
         if isinstance(obj, (FuncInfo, ClassInfo)):
             return obj
         return FuncRef(canon)
@@ -791,7 +823,7 @@ class PureInterp:
             try:
                 ok = {
                     ast.Eq: lambda: l == r, ast.NotEq: lambda: l != r, ast.In: lambda: l in r, ast.NotIn: lambda: l not in r,
-                    ast.Is: lambda: l is r or (l is None and r is None), ast.IsNot: lambda: not (l is r), ast.Lt: lambda: l < r, ast.Gt: lambda: l > r,
+                    ast.Is: lambda: self._same(l, r), ast.IsNot: lambda: not self._same(l, r), ast.Lt: lambda: l < r, ast.Gt: lambda: l > r,
                     ast.LtE: lambda: l <= r, ast.GtE: lambda: l >= r,
                 }[type(op)]()
             except TypeError as exc:
@@ -800,6 +832,17 @@ class PureInterp:
                 return False
             l = r
         return True
+
+    @staticmethod
+    def _same(l, r):
+        """`is` for the interpreter's values: enum members are singletons in the real program although EnumVal tuples are not."""
+        if l is r:
+            return True
+        if isinstance(l, EnumVal) and isinstance(r, EnumVal):
+            return l == r
+        if isinstance(l, (bool, type(None))) or isinstance(r, (bool, type(None))):
+            return l is r
+        return False
 
     def e_Subscript(self, n, env, module, depth):
         v = self.eval(n.value, env, module, depth)
